@@ -228,12 +228,15 @@ Definition f_us_an (x : CrCtx) (s : Service) : Qc :=
 Definition cgn_fuel_carriers (data : list Energy) : list Carrier :=
   filter (fun cr => existsb (fun e => is_cogen_use e && has_carrier cr e) data) all_carriers.
 
-(** Σ_t fuel_t / el_t  (as implemented; see DESIGN.md §7 D1) *)
+(** annual fuel input of carrier [cr] to cogeneration per unit of annual cogenerated electricity
+    (wfactors.rs compute_cgn_exp_fP_A, after fix 55df7f9) *)
+Definition cgn_fuel_an (data : list Energy) (cr : Carrier) (n : nat) : Qc :=
+  qsum (map (colsum (fun e => is_cogen_use e && has_carrier cr e) data) (seq 0 n)).
+Definition cgn_el_an (data : list Energy) (n : nat) : Qc :=
+  qsum (map (colsum is_cogen_pr data) (seq 0 n)).
 Definition cgn_ratio (data : list Energy) (cr : Carrier) (n : nat) : Qc :=
-  qsum (map (fun t =>
-               let us := colsum (fun e => is_cogen_use e && has_carrier cr e) data t in
-               let pr := colsum is_cogen_pr data t in
-               if qltb 0 pr then us / pr else 0) (seq 0 n)).
+  let el := cgn_el_an data n in
+  if qltb 0 el then cgn_fuel_an data cr n / el else 0.
 
 Fixpoint cgn_sum (fs : list Factor) (data : list Energy) (n : nat) (only_nearby : bool) (crs : list Carrier) : res RNC :=
   match crs with
